@@ -176,6 +176,17 @@ CHECKS["C13"] = ("exploration",
     "Trusted: json round trip + harness/encode.py as 'serialises to the same JSON'; scribble reaches every dict/list of the result.",
     "DESIGN.md §5 C13")
 
+CHECKS["C15"] = ("translation_validation",
+    "execution of the real TypeScript patch / applyDecisions (Node 22 type-stripping loader) on every TLC-generated well-formed "
+    "(doc, diff) of DiffModel.tla and on diffs / mergetool decision lists the Python side produces; TLC trace validation "
+    "(DiffTrace.tla TsPatchIsPyPatch / TsPatchIsSpecPatch / TsAccepts, MergeTrace.tla TsApplied / TsAccepts)",
+    "Each (base, diff) or (base, decisions) pair is one program run through both implementations (and through the specification's "
+    "Patch for the TLC-generated ones); TLC compares the resulting documents. Programs include strings with every separator of "
+    "Python's splitlines and format-version conflicts (take_max); each program is applied twice on the TypeScript side to catch "
+    "in-place mutation of the diff objects.",
+    "Trusted: harness/ts/loader.mjs + two package stand-ins; JavaScript's number model (1.0 = 1) is applied to both sides before comparing. "
+    "No tsc: the sources are type-stripped, not type-checked.", "DESIGN.md §5 C15")
+
 NOT_YET = {}
 
 PROPS = [json.loads(l)["id"] for l in open(os.path.join(VERIF, "properties.jsonl"))]
